@@ -12,6 +12,7 @@ CONSTANTS
   Getters = {5}
   Interrupters = {5}
   Fixed = TRUE
+  LockedInterrupt = TRUE
   Contig = FALSE
   KeepHist = 2
 INVARIANTS
